@@ -50,6 +50,8 @@ type call struct {
 	item     *vt.Item
 	patch    *vt.Item_PartialUpdate
 	keys     []string
+	items    map[string]*vt.Item
+	list     []*vt.Item
 	q        string
 	msg      string
 }
@@ -123,12 +125,12 @@ func (m *mockThings) BatchGet(ctx *restli.RequestContext, keys []string) (*thing
 }
 func (m *mockThings) BatchCreate(ctx *restli.RequestContext, entities []*vt.Item) ([]*things.CreatedEntity, error) {
 	m.ctx = ctx
-	err := m.rec(call{method: "batch_create"})
+	err := m.rec(call{method: "batch_create", list: entities})
 	return nil, err
 }
 func (m *mockThings) BatchUpdate(ctx *restli.RequestContext, entities map[string]*vt.Item) (*things.BatchResponse, error) {
 	m.ctx = ctx
-	err := m.rec(call{method: "batch_update"})
+	err := m.rec(call{method: "batch_update", items: entities})
 	return &things.BatchResponse{Results: map[string]*common.BatchEntityUpdateResponse{}}, err
 }
 func (m *mockThings) BatchPartialUpdate(ctx *restli.RequestContext, entities map[string]*vt.Item_PartialUpdate) (*things.BatchResponse, error) {
